@@ -450,6 +450,8 @@ def rand_cfg(rng: random.Random, tuples: bool) -> dict:
                 ]
             )
         )
+    if filters and rng.random() < 0.2:
+        filters.append(json.loads(json.dumps(filters[-1])))  # the same filter recorded twice in a row (legal: e.g. two percentile cuts)
     return {
         "name": rng.choice(["t", "sim test", "a/b:c", "näme", "x" * 12, "cfg-1.0", "UPPER lower", "long-" + "n" * rng.choice([90, 120, 200]), "", "a.b", " lead", "trail "]),
         "grid_n": n,
